@@ -92,6 +92,21 @@ func addPayloadFloorRule(w *World, r *Report, rule string) {
 				best, guard = kv, b
 			}
 		}
+		// the general form: the guards that dominate each decoding call (inline tests, or a length-check helper
+		// that returned a nil error) entail len(input) >= 64·n (E3 guard entailment)
+		if guard == nil || best < need {
+			a := w.rangeEnv().analyse(fn)
+			all := true
+			for _, c := range calls {
+				if !a.provesSplit(c.Block(), le(konst64(need), a.lenOf(input, c.Block()))) {
+					all = false
+				}
+			}
+			if all {
+				r.holds(rule, key, w.pos(calls[0].Pos()), fmt.Sprintf("the guards dominating the %d decoding calls entail len(input) >= %d (%d dynamic parameters)", len(calls), need, len(idx)))
+				continue
+			}
+		}
 		switch {
 		case guard == nil:
 			r.violated(rule, key, w.pos(fn.Pos()), fmt.Sprintf("no `len(input) < K` refusal dominates the %d decoding calls: truncated payloads reach the decoder", len(calls)))
